@@ -11,6 +11,7 @@ CONSTANTS
     SnapshotOnPush = TRUE
     WithLazy = FALSE
     WithCurrent = FALSE
+    CtxForms <- MC_Forms
     Panics = TRUE
     Emit = FALSE
 VIEW tview
